@@ -365,6 +365,9 @@ type %[1]sB struct {
 			f.Custom = fmt.Sprintf("func Atoi%[1]s(s string) %[1]sB {\n\treturn %[1]sB{Stamp: rt.Stamp(%[2]q, s)}\n}\n\n", p, "Atoi"+p)
 		}
 	}
+	if id%5 == 1 || r.Chance(25) {
+		privVars(r, f, p, true)
+	}
 	var b strings.Builder
 	b.WriteString("// goverter:converter\n")
 	flags := []string{"update:ignoreZeroValueField", "update:ignoreZeroValueField:basic", "update:ignoreZeroValueField:struct", "update:ignoreZeroValueField:nillable", "skipCopySameType"}
@@ -498,6 +501,9 @@ type %[1]sIn2 struct {
 		f.add(p+"C", b.String())
 		return f
 	}
+	if id%5 == 1 || r.Chance(25) {
+		privVars(r, f, p, false)
+	}
 	var b strings.Builder
 	b.WriteString("// goverter:converter\n")
 	// every 6th instance pins the combination ignoreMissing x matchIgnoreCase x ambiguous candidates (must be an error)
@@ -543,6 +549,88 @@ type %[1]sIn2 struct {
 	}
 	if r.Chance(30) {
 		b.WriteString("\tPtr(source *" + p + "In) *" + p + "Out\n")
+	}
+	b.WriteString("}\n\n")
+	f.add(p+"C", b.String())
+	return f
+}
+
+// privVars: a goverter:variables block (its output lands in the package of the structs, where unexported fields are
+// accessible): with ignoreUnexported the unexported target fields stay unassigned although they could be named; without it
+// they are converted like exported ones (and one without a source is an error).  update=true makes it an update function.
+func privVars(r *rng.R, f *famOut, p string, update bool) {
+	withCache := r.Chance(35)
+	cache := ""
+	if withCache {
+		cache = "\tcache  int\n"
+	}
+	f.Types += fmt.Sprintf("type %[1]sPriv struct {\n\tName   string\n\tsecret string\n\ttoken  *int\n}\ntype %[1]sPrivT struct {\n\tName   string\n\tsecret string\n\ttoken  *int\n%[2]s}\n", p, cache)
+	var b strings.Builder
+	b.WriteString("package p\n\n// goverter:variables\n")
+	top := rng.Pick(r, []string{"", "// goverter:ignoreUnexported\n", "// goverter:ignoreUnexported\n", "// goverter:ignoreUnexported no\n"})
+	b.WriteString(top + "var (\n")
+	switch r.Intn(4) {
+	case 0:
+		b.WriteString("\t// goverter:ignoreUnexported\n")
+	case 1:
+		b.WriteString("\t// goverter:ignoreUnexported no\n")
+	}
+	if withCache && r.Chance(30) {
+		b.WriteString("\t// goverter:ignore cache\n")
+	}
+	if update {
+		b.WriteString("\t// goverter:update target\n")
+		if r.Chance(40) {
+			b.WriteString("\t// goverter:update:ignoreZeroValueField\n")
+		}
+		b.WriteString(fmt.Sprintf("\tUpPriv%[1]s func(source %[2]s%[1]sPriv, target *%[1]sPrivT)\n", p, rng.Pick(r, []string{"", "*"})))
+	} else {
+		b.WriteString(fmt.Sprintf("\tConvPriv%[1]s func(source %[1]sPriv) %[1]sPrivT\n", p))
+	}
+	b.WriteString(")\n")
+	if f.Pkgs == nil {
+		f.Pkgs = map[string]string{}
+	}
+	f.Pkgs["p/vars_priv_"+strings.ToLower(p)+".go"] = b.String()
+}
+
+// famExtendPkgs: extend functions with the SAME identifier declared in two packages (for two different pairs): both are
+// custom implementations of their own pair; selected by one extend line, several lines, or patterns (C06).
+func famExtendPkgs(r *rng.R, id int) *famOut {
+	p := fmt.Sprintf("G%d", id)
+	f := &famOut{}
+	xa, xb := strings.ToLower(p)+"xa", strings.ToLower(p)+"xb"
+	asString := r.Chance(50)
+	pkgSrc := func(pkg string) string {
+		if asString {
+			return fmt.Sprintf("package %[1]s\n\nimport \"MODULE/rt\"\n\ntype Name string\n\ntype Out string\n\nfunc ToAPI(n Name) Out {\n\treturn Out(rt.Stamp(\"ToAPI\", string(n)))\n}\n\nfunc ToOther(n Name) int {\n\treturn len(n)\n}\n", pkg)
+		}
+		return fmt.Sprintf("package %[1]s\n\nimport \"MODULE/rt\"\n\ntype Name string\n\ntype Out struct {\n\tStamp string\n}\n\nfunc ToAPI(n Name) Out {\n\treturn Out{Stamp: rt.Stamp(\"ToAPI\", string(n))}\n}\n\nfunc ToOther(n Name) int {\n\treturn len(n)\n}\n", pkg)
+	}
+	f.Pkgs = map[string]string{xa + "/f.go": pkgSrc(xa), xb + "/f.go": pkgSrc(xb)}
+	f.TypeImports = []string{fmt.Sprintf("%q", "MODULE/"+xa), fmt.Sprintf("%q", "MODULE/"+xb)}
+	f.ConvAnchors = []string{fmt.Sprintf("var _ = %s.ToAPI", xa), fmt.Sprintf("var _ = %s.ToAPI", xb)}
+	f.Types = fmt.Sprintf("type %[1]sIn struct {\n\tOwner   %[2]s.Name\n\tStatus  %[3]s.Name\n\tMembers []%[2]s.Name\n\tByRole  map[string]*%[2]s.Name\n\tHist    []%[3]s.Name\n\tN       %[1]sNest\n}\ntype %[1]sNest struct {\n\tReviewer %[2]s.Name\n\tLast     *%[3]s.Name\n}\ntype %[1]sOut struct {\n\tOwner   %[2]s.Out\n\tStatus  %[3]s.Out\n\tMembers []%[2]s.Out\n\tByRole  map[string]*%[2]s.Out\n\tHist    []%[3]s.Out\n\tN       %[1]sNestT\n}\ntype %[1]sNestT struct {\n\tReviewer %[2]s.Out\n\tLast     *%[3]s.Out\n}\n", p, xa, xb)
+	var b strings.Builder
+	b.WriteString("// goverter:converter\n")
+	ea, eb := "MODULE/"+xa+":ToAPI", "MODULE/"+xb+":ToAPI"
+	if r.Bool() {
+		ea, eb = eb, ea
+	}
+	switch r.Intn(4) {
+	case 0:
+		b.WriteString("// goverter:extend " + ea + " " + eb + "\n")
+	case 1:
+		b.WriteString("// goverter:extend " + ea + "\n// goverter:extend " + eb + "\n")
+	case 2:
+		b.WriteString("// goverter:extend " + strings.Replace(ea, ":ToAPI", ":ToA.*", 1) + "\n// goverter:extend " + strings.Replace(eb, ":ToAPI", ":To[AB]PI", 1) + "\n")
+	default:
+		// the same function mentioned twice, around the other one
+		b.WriteString("// goverter:extend " + ea + " " + eb + " " + ea + "\n")
+	}
+	b.WriteString("type " + p + "C interface {\n\tConvert(source " + p + "In) " + p + "Out\n")
+	if r.Bool() {
+		b.WriteString("\tList(source []" + p + "In) []" + p + "Out\n")
 	}
 	b.WriteString("}\n\n")
 	f.add(p+"C", b.String())
@@ -640,6 +728,24 @@ func famEnum(r *rng.R, id int) *famOut {
 		}
 		b.WriteString(fmt.Sprintf("\t%s(source %sWa) %s\n", names[0], p, res(p+"WaT")))
 		b.WriteString(fmt.Sprintf("\t%s(source %sWb) %s\n", names[1], p, res(p+"WbT")))
+	}
+	// an enum converted to ITS OWN type (top level, and as field / element of two different structs): without
+	// skipCopySameType the switch is generated all the same, so non-members follow enum:unknown
+	if r.Chance(65) {
+		resOf := func(t string) string {
+			if unknown == "@error" || r.Chance(30) {
+				return "(" + t + ", error)"
+			}
+			return t
+		}
+		if r.Chance(70) {
+			b.WriteString(fmt.Sprintf("\tOwn(source %sSrc) %s\n", p, resOf(p+"Src")))
+		}
+		if r.Chance(70) {
+			sb2 := fmt.Sprintf("type %[1]sSh struct {\n\tS %[1]sSrc\n\tL []%[1]sSrc\n\tM map[string]%[1]sSrc\n}\ntype %[1]sShT struct {\n\tS %[1]sSrc\n\tL []%[1]sSrc\n\tM map[string]%[1]sSrc\n}\n", p)
+			f.Types += sb2
+			b.WriteString(fmt.Sprintf("\tOwnSt(source %sSh) %s\n", p, resOf(p+"ShT")))
+		}
 	}
 	// a direct method on a third pair (same member names in two packages): an explicit enum:map (also the identity
 	// `Fast Fast`) wins over a transformer that maps the same member elsewhere; members without either keep their name
